@@ -58,8 +58,8 @@ theorem refCount_eq_fixed (cfg : Cfg) (hfix : cfg.fixed = true) (evs : List Even
   rw [panics_run_safe cfg (Or.inr hfix) evs] at this
   simpa using this
 
-/-- a reference is leaked only by a `sub` that creates a generation over an unsafe prefix -/
-theorem leak_only_by_unsafe_prefix (cfg : Cfg) (evs : List Event) (e : Event) :
+/-- a reference is leaked only by a `sub` that creates a generation over a prefix that is not `SafePre` -/
+theorem leak_only_by_nonsafe_prefix (cfg : Cfg) (evs : List Event) (e : Event) :
     (step cfg (run cfg evs) e).panics = (run cfg evs).panics ∨
     ((step cfg (run cfg evs) e).panics = (run cfg evs).panics + 1 ∧ e = .sub ∧ (run cfg evs).subject = none ∧
       cfg.fixed = false ∧ ∃ k, SafePre cfg.flags (cfg.pre k) = false) := panics_step cfg (inv_run cfg evs) e
@@ -281,7 +281,7 @@ end Ro.C11
 #print axioms Ro.C11.refCount_eq
 #print axioms Ro.C11.refCount_eq_partial
 #print axioms Ro.C11.refCount_eq_fixed
-#print axioms Ro.C11.leak_only_by_unsafe_prefix
+#print axioms Ro.C11.leak_only_by_nonsafe_prefix
 #print axioms Ro.C11.subscribe_upstream_iff_no_generation
 #print axioms Ro.C11.later_subscribers_join
 #print axioms Ro.C11.joiner_receives_connector_replay
